@@ -326,6 +326,16 @@ class P:
                 if t[0] in ("id", "str", "num"):
                     self.i += 1
                     key = t[1]
+                    if t[0] == "num":
+                        # a numeric literal as property name stands for String(Number(literal)); a leading zero is a legacy octal literal
+                        txt = t[1].rstrip("n")
+                        if len(txt) > 1 and txt[0] == "0" and txt[1].isdigit():
+                            raise TsSyntaxError("legacy octal literal as property name", t[2])
+                        try:
+                            v = float(txt.replace("_", ""))
+                            key = str(int(v)) if v == int(v) and abs(v) < 1e21 else repr(v)
+                        except ValueError:
+                            raise TsSyntaxError("bad numeric property name", t[2])
                 else:
                     raise TsSyntaxError(f"property name expected, found {t[1] or t[0]!r}", t[2])
                 opt = self.opt("p", "?")
